@@ -27,6 +27,10 @@ type c15Op struct {
 	Op      string             `json:"op"` // add | find | len
 	Ev      int                `json:"ev,omitempty"`
 	Filters []simrt.FilterSpec `json:"filters,omitempty"`
+	// Shared: the query is made with the case's shared filter list - in direct
+	// mode the very same []*ReqFilter value for every client (a merge hands one
+	// REQ message to all of its children: queries must not write to their input)
+	Shared bool `json:"shared,omitempty"`
 }
 
 type C15Case struct {
@@ -34,7 +38,9 @@ type C15Case struct {
 	Mode    string         `json:"mode"` // direct | session
 	Events  []cacheEv      `json:"events"`
 	Clients [][]c15Op      `json:"clients"`
-	Sched   simrt.Schedule `json:"sched"`
+	// SharedFilters: authors and ids lists in descending order, with a repeat
+	SharedFilters []simrt.FilterSpec `json:"shared_filters,omitempty"`
+	Sched         simrt.Schedule     `json:"sched"`
 }
 
 type c15Engine struct{}
@@ -105,6 +111,27 @@ func (c15Engine) Gen(t *rapid.T, tier string) any {
 	}
 	c.Events = cc.Events
 	evs := cc.build()
+	if rapid.IntRange(0, 2).Draw(t, "shared") == 0 {
+		var au, ids []string
+		for i := range ref.Authors {
+			au = append(au, ref.Authors[i].Pubkey)
+		}
+		for _, e := range evs {
+			ids = append(ids, e.ID)
+		}
+		sort.Sort(sort.Reverse(sort.StringSlice(au)))
+		sort.Sort(sort.Reverse(sort.StringSlice(ids)))
+		if len(au) > 3 {
+			au = au[:3]
+		}
+		au = append(au, au[0])
+		ids = append(ids, ids[0])
+		if rapid.IntRange(0, 1).Draw(t, "shared.kind") == 0 {
+			c.SharedFilters = []simrt.FilterSpec{{Authors: au}}
+		} else {
+			c.SharedFilters = []simrt.FilterSpec{{IDs: ids}, {Authors: au[:2], Kinds: []int64{1, 7, 30000}}}
+		}
+	}
 	ncl := rapid.IntRange(2, 4).Draw(t, "nclients")
 	total := 0
 	for k := 0; k < ncl; k++ {
@@ -122,6 +149,10 @@ func (c15Engine) Gen(t *rapid.T, tier string) any {
 				}
 				fallthrough
 			default:
+				if len(c.SharedFilters) > 0 && rapid.IntRange(0, 2).Draw(t, "sharedq") == 0 {
+					ops = append(ops, c15Op{Op: "find", Filters: c.SharedFilters, Shared: true})
+					continue
+				}
 				var fs []simrt.FilterSpec
 				switch rapid.IntRange(0, 5).Draw(t, "listing") {
 				case 0, 1, 2:
@@ -361,6 +392,7 @@ func (c15Engine) Exec(t *testing.T, cc any) *simrt.Result {
 				lockOrder = append(lockOrder, cur[k])
 			}
 		}
+		sharedFilters := simrt.Filters(c.SharedFilters)
 		for k, ops := range c.Clients {
 			for i, op := range ops {
 				r := &c15Rec{client: k, idx: i}
@@ -370,6 +402,9 @@ func (c15Engine) Exec(t *testing.T, cc any) *simrt.Result {
 					r.in.ev = evs[op.Ev]
 				case "find":
 					r.in.filters = simrt.Filters(op.Filters)
+					if op.Shared {
+						r.in.filters = sharedFilters
+					}
 				}
 				recs[k] = append(recs[k], r)
 			}
